@@ -22,7 +22,9 @@ def all_strings(alpha, n):
 def gen_random(rng, n):
     lines = []
     pieces = [b"*", b"?", b"[", b"]", b"^", b"-", b"\\", b"a", b"b", b"c", b"[a-c]", b"[^a]", b"[ab]", b"\\*", b"\\?",
-              b"[\\]]", b"[a-", b"[]", b"**", b"\x00", b"\xff", b"\r\n", b"A", b"z"]
+              b"[\\]]", b"[a-", b"[]", b"**", b"\x00", b"\xff", b"\r\n", b"A", b"z",
+              # ranges that end at the last byte value, start at the first, or span everything (a byte counter that wraps never terminates)
+              b"[a-\xff]", b"[\x80-\xff]", b"[\x00-a]", b"[^\x00-\xff]", b"[\xff-\xff]", b"[\xfe-\xff]"]
     for _ in range(n):
         p = b"".join(rng.choice(pieces) for _ in range(rng.randint(0, 10)))
         if rng.random() < 0.5:
@@ -103,8 +105,19 @@ def run_glob(R, ctx):
     rng = random.Random(R.seed)
     rnd = gen_random(rng, 20000 if R.tier == "quick" else 400000)
     cor = core.corpus("glob")
-    obs, se, rc = core.run_harness(binary, "glob", cor + lines + rnd)
-    R.oblige("harness glob engine ran to completion", "run", rc == 0 and len(obs) == len(cor) + len(lines) + len(rnd), se[-300:])
+    # the engine answers a line whose evaluation does not finish within 4 s with the outcome H and exits; it is restarted after that line
+    # (at most 5 times: "matching always terminates" is violated by the first one)
+    allin = cor + lines + rnd
+    obs, se, rc, hangs = [], "", 0, 0
+    while len(obs) < len(allin) and hangs <= 5:
+        got, se, rc = core.run_harness(binary, "glob", allin[len(obs):], timeout=1800)
+        obs += got
+        if got and got[-1].endswith(" H"):
+            hangs += 1
+        else:
+            break
+    R.oblige("harness glob engine ran to completion, no evaluation exceeded the 4 s watchdog", "run",
+             rc == 0 and hangs == 0 and len(obs) == len(allin), ("%d evaluation(s) did not terminate; " % hangs if hangs else "") + se[-300:])
     d = core.run_driver(obs)
     core.negative_control(R, obs, "glob", skip=lambda l: l.startswith("GE "))
     nsub = len(all_strings(ALPHA, S))
